@@ -196,6 +196,7 @@ class Executor:
         s.assume = list(assume)
         s.obligs = []      # (kind, pc(list), cond, info)
         s.ub = []          # (cond BoolRef, text)
+        s.ubvals = []      # (fresh var, [candidate x86 results]) for out-of-range shifts
         s.accesses = []    # (pc, addr BV64, nbytes, align, 'r'|'w', rid, off)
         s.side = []; _side = s.side
         s.steps = 0; s.max_steps = max_steps
@@ -505,7 +506,14 @@ class Executor:
             if is_c(b): return r
             oob = z3.UGE(B, n)
             s.ub_note(st, oob, op + ' count>=width')
-            return z3.If(oob, fresh('ubshift', n), r)
+            fv = fresh('ubshift', n)
+            # the two ways x86 code generation resolves an out-of-range count: vector shifts saturate (0 / sign fill),
+            # scalar shifts mask the count.  Used only to refine a UB-tagged counterexample (engine.decide_one).
+            Bm = B & z3.BitVecVal((n - 1) if n & (n - 1) == 0 else mask(n), n)
+            sat = (A >> z3.BitVecVal(n - 1, n)) if op == 'ashr' else z3.BitVecVal(0, n)
+            wrap = {'shl': lambda: A << Bm, 'lshr': lambda: z3.LShR(A, Bm), 'ashr': lambda: A >> Bm}[op]()
+            s.ubvals.append((fv, [sat, wrap]))
+            return z3.If(oob, fv, r)
         if op in ('udiv', 'urem', 'sdiv', 'srem'):
             mk = {'udiv': z3.UDiv, 'urem': z3.URem, 'sdiv': lambda x, y: x / y, 'srem': z3.SRem}[op]
             r = mk(A, B)
